@@ -72,7 +72,10 @@ def oracle_transparent(cases):
     """C04: every call returns what the cache-free pipeline returns, or propagates the injected user exception"""
     viol, n = [], 0
     for i, c in enumerate(cases):
+        columns = any(d['t'] == 'columns' for v in c['variants'] for d in v)
         for op, ob in call_ops(c):
+            if columns and op['key'] not in c['ids']:
+                continue        # a column cache serves the ids of the dataset only: other keys are rejected by design
             n += 1
             res, ref, ref_nf = ob['res'], ob['ref'], ob['ref_nofail']
             ok = (res == ref) or ('val' in res and res == ref_nf) or ('exc' in res and res['exc'].startswith('User:') and ob['bad'] == [res['exc'][5:]])
@@ -82,6 +85,9 @@ def oracle_transparent(cases):
                 sig = 'oracle:not-transparent'
                 if has_ram(c) and pyeq_collision(c, op):
                     sig = 'F3:pyeq-collision-in-ram-cache'
+                if (ob.get('exc_detail', '').startswith('RuntimeError: generator raised StopIteration') and ob.get('user_exc') == 'UserStop'
+                        and any(d['t'] in ('columns', 'filter', 'groupby') for v in c['variants'] for d in v)):
+                    sig = 'F8:user-StopIteration-inside-dataset-wide-edge'
                 viol.append({'signature': sig, 'case': _slim(c), 'observed': res, 'expected': ref,
                              'what': f'history {i}: {op} returned {json.dumps(res)[:200]} but the pipeline without cache layers gives '
                                      f'{json.dumps(ref)[:200]}'})
@@ -126,7 +132,7 @@ def oracle_lru_bound(cases):
 
 def _slim(c):
     return {'variants': c['variants'], 'ops': c['ops'], 'ids': c['ids'], 'fields': c['fields'],
-            'obs': [{k: v for k, v in o.items() if k in ('res', 'ref', 'ref_nofail', 'ram_sizes', 'bad')} for o in c['obs']]}
+            'obs': [{k: v for k, v in o.items() if k in ('res', 'ref', 'ref_nofail', 'ram_sizes', 'bad', 'exc_detail', 'user_exc')} for o in c['obs']]}
 
 
 def distribution(cases):
